@@ -197,6 +197,7 @@ fn evolve_propose(
                     report.files,
                     report.files_posix,
                     report.committed,
+                    report.skipped,
                 );
                 let envelope = JsonEnvelope::ok("evolve.propose", data)
                     .with_command_meta(cli.command_id(), cli.command_path());
@@ -208,6 +209,12 @@ fn evolve_propose(
                 }
                 if !report.committed {
                     println!("Note: commit failed; changes are left on the proposal branch.");
+                }
+                if !report.skipped.is_empty() {
+                    println!("Skipped drift (not proposeable):");
+                    for s in &report.skipped {
+                        println!("- {} {} {}", s.reason, s.target, s.path);
+                    }
                 }
             }
             Ok(())
